@@ -58,6 +58,8 @@ func specC11(l *Loaded, tier string, seed int64) (*Spec, error) {
 		}
 	}
 	jobs = append(jobs, &Job{Pkg: "risc", Fn: "VerifC11Registers", Key: "register-table", Covers: []string{"end"}})
+	// (D) decode: for every mnemonic the op decoded from "<mn> operands" behaves as the RV32IM definition of that text
+	jobs = append(jobs, c02ParseJobs("decode")...)
 	// (L) layout: one job per (register set, kinds of the first two lines)
 	regsets := [][2]string{{"t0,a0,s11", "0"}}
 	if tier == "thorough" {
@@ -89,7 +91,10 @@ func specC15(l *Loaded, tier string, seed int64) (*Spec, error) {
 	si := strconv.Itoa
 	for _, rig := range [][2]string{{"map", "1"}, {"rat", "10"}} {
 		for _, order := range []string{"any", "program"} {
-			for op0 := 0; op0 < 4; op0++ {
+			for op0 := 0; op0 < 5; op0++ {
+				if op0 == 4 && rig[0] == "map" {
+					continue
+				}
 				jobs = append(jobs, &Job{Pkg: "risc", Fn: "VerifC15", Key: fmt.Sprintf("%s|%s-order|op0=%d", rig[0], order, op0), Choices: []int{op0},
 					Params: map[string]string{"rig": rig[0], "slots": rig[1], "k": si(k), "order": order}, MaxPaths: 3_000_000,
 					Note: "history of k operations among tagged write / tagged read / commit / rollback over two registers; values and tags symbolic"})
